@@ -14,6 +14,11 @@ import (
 	"github.com/jsightapi/jsight-api-core/scanner"
 )
 
+// maxIncludedFiles limits how many times a file may be included in one project:
+// only cycles are refused, so a chain of n files each of which includes the
+// next one twice is scanned 2^n times.
+const maxIncludedFiles = 1 << 16
+
 func (core *JApiCore) processInclude(keyword *scanner.Lexeme) *jerr.JApiError {
 	// We got the "INCLUDE" directive here.
 	// This directive shouldn't be among core.directives, because we simply
@@ -33,6 +38,11 @@ func (core *JApiCore) processInclude(keyword *scanner.Lexeme) *jerr.JApiError {
 		// cycle. It is reported here: scanning the root file once more would only
 		// run into its JSIGHT directive.
 		return japiErrorForLexeme(keyword, jerr.RecursionIsProhibited)
+	}
+
+	core.includedFiles++
+	if core.includedFiles > maxIncludedFiles {
+		return japiErrorForLexeme(keyword, jerr.TooManyIncludes)
 	}
 
 	file, err := readFile(path)
